@@ -75,6 +75,15 @@ Definition model_outs (c : case) : list out :=
 
 Definition check_case (c : case) : bool := all_ok (model_outs c) (c_obs c).
 
-(* for diagnosis in replay files: reply, driver calls, hook calls, updates per request *)
-Definition model_result (c : case) : list (option ecls * list call * list (nat * pyval) * list (str * pyval)) :=
-  map (fun o => (o_reply o, o_drv o, o_hooks o, o_upd o)) (model_outs c).
+(* for diagnosis in replay files: per request, which components agree (reply, driver calls, hook calls, updates, cache).
+   (Printing model values themselves would make vm_compute normalise the proof fields of the floats.) *)
+Fixpoint diag_from (outs : list out) (os : list obs) : list (bool * bool * bool * bool * bool) :=
+  match outs, os with
+  | o :: outs', b :: os' =>
+      (opt_eqb ecls_eqb (o_reply o) (ob_reply b), list_eqb call_eqb (o_drv o) (ob_drv b),
+       list_eqb (pair_eqb Nat.eqb pv_same) (o_hooks o) (ob_hooks b),
+       list_eqb (pair_eqb str_eqb pv_same) (o_upd o) (ob_upd b), cache_same (o_cache o) (ob_cache b)) :: diag_from outs' os'
+  | _, _ => []
+  end.
+Definition model_result (c : case) : list (option ecls) * list (bool * bool * bool * bool * bool) :=
+  (map o_reply (model_outs c), diag_from (model_outs c) (c_obs c)).
